@@ -282,10 +282,11 @@ func verifC19ReadHead(path string, jsonOnly bool) (string, bool) {
 }
 
 // VerifC19WriteStart runs AnySource.PrepareRun on a source whose channels are prepared, issues a real
-// WriteControl START (LJH 2.2, LJH3 and, when withOFF, OFF with projectors on every stream) with
+// WriteControl START (LJH 2.2, LJH3 and, when offChans is not empty, OFF with projectors loaded on exactly those channel indices) with
 // base path `base`, publishes one record per stream so that every file and header comes into being,
 // issues STOP, and reports names and headers. Holds the package-level publication channels meanwhile.
-func VerifC19WriteStart(ds *AnySource, base string, npre, nsamp int, withOFF bool) (out VerifC19Files) {
+func VerifC19WriteStart(ds *AnySource, base string, npre, nsamp int, offChans []int) (out VerifC19Files) {
+	withOFF := len(offChans) > 0
 	verifBenchMu.Lock()
 	defer verifBenchMu.Unlock()
 	rec := make(chan []*DataRecord, 1<<12)
@@ -324,7 +325,7 @@ func VerifC19WriteStart(ds *AnySource, base string, npre, nsamp int, withOFF boo
 		ds.writingState.dataDropTicker.Stop()
 	}()
 	if withOFF {
-		for ch := range ds.processors {
+		for _, ch := range offChans {
 			p := mat.NewDense(2, nsamp, nil)
 			q := mat.NewDense(nsamp, 2, nil)
 			for j := 0; j < nsamp; j++ {
